@@ -509,23 +509,17 @@ func main() {
 			// finding, replayed from corpus/C02-witnesses.jsonl on every run — and are left out here)
 			runLO(ctx, w, rr, g, s, nil)
 		}
-		t0 := time.Now()
 		for k := 0; k < 12; k++ {
 			runFP(w, genFP(rr))
 		}
-		t1 := time.Now()
 		for k := 0; k < 6; k++ {
 			runW2(w, lc, genW2(rr), 6)
 		}
-		t2 := time.Now()
 		for k := 0; k < 3; k++ {
 			runBFS(ctx, w, rigs, o.Seed, genBFS(rr))
 		}
 		for k := 0; k < 6; k++ {
 			runSrc(w, genSrc(rr))
 		}
-		w.Stat("ms_fastpath", int(t1.Sub(t0).Milliseconds()))
-		w.Stat("ms_weight2", int(t2.Sub(t1).Milliseconds()))
-		w.Stat("ms_bfs", int(time.Since(t2).Milliseconds()))
 	}
 }
